@@ -11,7 +11,7 @@ def run_tables(ck, rule, gen, scope='present', **kw):
     return n
 
 
-TIME_SWEEP = ['dt64_s', 'epoch_list', 'epoch_array', 'epoch_series', 'series', 'series_tz', 'dtindex', 'dtindex_tz', 'dtindex_s', 'series_us', 'pydatetime']
+TIME_SWEEP = ['dt64_s', 'epoch_list', 'epoch_array', 'epoch_series', 'series', 'series_tz', 'dtindex', 'dtindex_tz', 'dtindex_s', 'series_us', 'pydatetime', 'epoch_series_u']
 DATA_SWEEP = ['list_nan', 'tuple_nan', 'ndarray', 'series', 'ndarray_f4', 'ndarray_int']
 
 
@@ -20,6 +20,19 @@ def run_carrier_sweep(ck, rule, gen, time=True, data=True, n_max=3, per_class=4,
     series and the time axis handed over in the other supported containers (C15 compares carriers with each other; here each carrier is
     held against the specification itself).  Scenarios whose instants a carrier cannot represent are skipped."""
     sweeps = [('tcarrier', tc) for tc in (TIME_SWEEP if time else [])] + [('carrier', dc) for dc in (DATA_SWEEP if data else [])]
+    # the same numbers as numpy scalars (np.int64 out of an array or a DataFrame cell, np.float64): a parameter is its value, whatever its Python type
+    from ..qc import numpy_scalar_params
+    for kind in ('int64', 'float64'):
+        seen = {}
+        for case, spec in gen('quick', **kw):
+            cls = (case.meta.get('class'), case.n)
+            if case.n > n_max or case.n < 2 or seen.get(cls[0], 0) >= 1 or (spec is not None and spec.rejects):
+                continue
+            seen[cls[0]] = 1
+            case.kwargs = numpy_scalar_params(case.kwargs, kind)
+            case.label = f'{case.label} [parameters as np.{kind}]'
+            case.meta = dict(case.meta, **{'class': f'{case.meta.get("class", "")}/np.{kind}'})
+            table_rule(ck, rule, case, spec, scope='present')
     for param, value in sweeps:
         seen = {}
         try:
